@@ -3,6 +3,7 @@ import Enc.Spec.Json.Grammar
 import Enc.Lemmas.StreamStable
 import Enc.Lemmas.StreamFull
 import Enc.Spec.Json.StreamSpec
+import Enc.Lemmas.StreamErr
 /-!
 # C11 — json.Decoder yields the same value stream however the bytes arrive
 Property theorems only.
@@ -80,5 +81,39 @@ theorem chunking_independent {minBuf minRead : Nat} (h0 : 0 < minRead) (h1 : min
     decodeAll minBuf minRead limit { reader := evs₁, final := .eof } =
       decodeAll minBuf minRead limit { reader := evs₂, final := .eof } :=
   Lemmas.StreamFull.chunking_independent h0 h1 evs₁ evs₂ hc₁ hc₂ heq limit
+
+/-! ## data delivered with io.EOF, and failing readers (proofs in Enc/Lemmas/StreamErr*.lean)
+
+`WF final evs` is the io.Reader contract: an event that carries an error carries the terminal condition `final`, and
+only `(0, final)` results follow it. -/
+
+open Lemmas.StreamFull Lemmas.StreamErr in
+/-- data delivered together with io.EOF: same outputs as the specification over the bytes -/
+theorem decodeAll_eof_spec {minBuf minRead : Nat} (h0 : 0 < minRead) (h1 : minRead ≤ minBuf)
+    (evs : Reader) (hw : WF .eof evs) (limit : Nat) :
+    (decodeAll minBuf minRead limit { reader := evs, final := .eof }).map erase =
+      Spec.Json.specStream limit (allBytes evs) :=
+  Lemmas.StreamErr.decodeAll_eof_spec h0 h1 evs hw limit
+
+open Lemmas.StreamFull Lemmas.StreamErr in
+/-- **Failing reader.** When the reader fails with an error other than io.EOF, the Decoder yields values and then the
+reader's error (or the syntax error the delivered bytes already contain); for EVERY continuation `more` of the
+delivered bytes, the values yielded are a prefix of the values of the intended stream: nothing is lost, duplicated or
+truncated (a number that ends where the delivered bytes end is withheld). -/
+theorem decodeAll_failing_intended {minBuf minRead : Nat} (h0 : 0 < minRead) (h1 : minRead ≤ minBuf)
+    (evs : Reader) (hw : WF .other evs) (limit : Nat) (hl : (allBytes evs).length + 1 ≤ limit) :
+    ∃ vals last, decodeAll minBuf minRead limit { reader := evs, final := .other } = vals ++ [last] ∧
+      (∀ v ∈ vals, isValue v = true) ∧ (last = .readerErr ∨ last = .syntax) ∧
+      ∀ more, (vals.map erase) <+: Spec.Json.specStream limit (allBytes evs ++ more) ∧
+        (last = .syntax → Spec.Json.specStream limit (allBytes evs ++ more) = vals.map erase ++ [.err]) :=
+  Lemmas.StreamErr.decodeAll_failing_intended h0 h1 evs hw limit hl
+
+open Lemmas.StreamErr in
+/-- chunking independence with error events: same bytes, same terminal condition ⇒ same outputs -/
+theorem chunking_independent_err {minBuf minRead : Nat} (h0 : 0 < minRead) (h1 : minRead ≤ minBuf) (final : RErr)
+    (evs₁ evs₂ : Reader) (hw₁ : WF final evs₁) (hw₂ : WF final evs₂) (heq : allBytes evs₁ = allBytes evs₂) (limit : Nat) :
+    decodeAll minBuf minRead limit { reader := evs₁, final := final } =
+      decodeAll minBuf minRead limit { reader := evs₂, final := final } :=
+  Lemmas.StreamErr.chunking_independent_err h0 h1 final evs₁ evs₂ hw₁ hw₂ heq limit
 
 end Enc.Props.C11
